@@ -11,12 +11,15 @@ LEAN_TARGETS = ['PxProofs.C16']
 THEOREMS = [
     'Px.Ws.C16_roundtrip', 'Px.Ws.C16_mask_involutive', 'Px.Ws.C16_rfc',
     'Px.Ws.C16_reject_wide_opcode', 'Px.Sha1.C16_accept', 'Px.Sha1.C16_accept_rfc_example',
+    'Px.Ws.C16_reset_forgets', 'Px.Ws.C16_loop', 'Px.Ws.C16_loop_close', 'Px.Ws.C16_loop_total',
+    'Px.Ws.C16_echo', 'Px.Ws.C16_no_reset_stale_mask_witness',
 ]
 RULE = ('rt: frame (flags, opcode, masked, key, payload spec, tail) built and parsed back by the real '
         'WebsocketFrame and by the model; parse: arbitrary byte strings; accept: keys; distinct by canonical '
         'JSON; non-trivial = round-trip case inside the property quantifier (opcode<16, 4-byte key)')
 ASSUMPTIONS = [
-    'frames are freshly populated objects (payload_length None) as in WebsocketFrame.text()/client usage',
+    'rt cases use freshly populated objects; inst/loop cases drive ONE reused WebsocketFrame through '
+    'reset/parse/build/attribute-assignment histories (a history ends at the first exception, as the web loop does)',
     'hashlib.sha1/base64 are tied to the Lean SHA-1/base64 model only on the keys run',
     'handshake cases drive HttpWebServerPlugin.on_request_complete directly (flags with and without key/cert files); no TLS handshake is run',
 ]
@@ -78,6 +81,10 @@ def impl(case):
         return ['ok ' + hx(F.WebsocketFrame.key_to_accept(bytes.fromhex(case['key'])))]
     if k == 'wsloop':
         return _wsloop_impl(case)
+    if k == 'inst':
+        return [_inst_impl(case)]
+    if k == 'loop':
+        return [_loop_impl(case)]
     if k == 'hs':
         return [_handshake_impl(case)]
     if k == 'upfr':
@@ -125,6 +132,90 @@ def _wsloop_impl(case):
         p.route.log.append('exc ' + exc_name(e))
     log = p.route.log[:len(case['frames'])]
     return log + ['missing'] * (len(case['frames']) - len(log))
+
+
+def _inst_str(g):
+    return 'fin=%d rsv=%d%d%d op=%d masked=%d plen=%s mask=%s data=%s' % (
+        g.fin, g.rsv1, g.rsv2, g.rsv3, g.opcode, g.masked, g.payload_length, hx(g.mask), hx(g.data))
+
+
+def _inst_impl(case):
+    """An operation history on ONE real WebsocketFrame object: R reset(), B build(), P=<hex> parse(),
+    S=<flags>,<op>,<masked>,<mask>,<data> attribute assignment (payload_length left alone, as user code does)."""
+    from proxy.http.websocket import frame as F
+    rnd = bytes.fromhex(case['rnd'])
+    orig = F.secrets.token_bytes
+    F.secrets.token_bytes = lambda n: rnd
+    g = F.WebsocketFrame()
+    out = []
+    try:
+        for tok in case['ops']:
+            if tok == 'R':
+                g.reset()
+                out.append('reset')
+            elif tok == 'B':
+                try:
+                    raw = g.build()
+                except Exception as e:
+                    out.append('exc build ' + exc_name(e))
+                    break
+                out.append('built %s %s' % (hx(raw), _inst_str(g)))
+            elif tok.startswith('P='):
+                try:
+                    tail = g.parse(unhx_(tok[2:]))
+                except Exception as e:
+                    out.append('exc parse ' + exc_name(e))
+                    break
+                out.append('parsed %s tail=%s' % (_inst_str(g), hx(tail)))
+            elif tok.startswith('S='):
+                fl, op, m, mask, data = tok[2:].split(',')
+                g.fin, g.rsv1, g.rsv2, g.rsv3 = [c == '1' for c in fl]
+                g.opcode = int(op)
+                g.masked = m == '1'
+                g.mask = None if mask == 'None' else unhx_(mask)
+                g.data = None if data == 'None' else unhx_(data)
+                out.append('set')
+            else:
+                raise ValueError(tok)
+    finally:
+        F.secrets.token_bytes = orig
+    return ' | '.join(out)
+
+
+def unhx_(s):
+    return b'' if s == '-' else bytes.fromhex(s)
+
+
+class _InstRoute:
+    def __init__(self):
+        self.log = []
+
+    def on_client_data(self, request, raw):
+        return raw
+
+    def on_websocket_message(self, g):
+        self.log.append(_inst_str(g))
+
+
+def _loop_impl(case):
+    """Arbitrary bytes as ONE segment through the real HttpWebServerPlugin.on_client_data websocket loop: the
+    full state of the (reused) frame object at every hand-over to the route plugin, and how the loop ended."""
+    from proxy.http.server.web import HttpWebServerPlugin
+    from proxy.http.server.protocols import httpProtocolTypes
+    from proxy.http.exception import HttpProtocolException
+    p = object.__new__(HttpWebServerPlugin)
+    p._post_request_data_size = 0
+    p.request = None
+    p.route = _InstRoute()
+    p.switched_protocol = httpProtocolTypes.WEBSOCKET
+    try:
+        p.on_client_data(memoryview(unhx_(case['raw'])))
+        end = 'drained'
+    except HttpProtocolException:
+        end = 'closed'
+    except Exception as e:
+        end = 'exc ' + exc_name(e)
+    return ' | '.join(p.route.log + [end])
 
 
 _HS_WORLD = {}
@@ -265,6 +356,10 @@ def model_lines(case):
     if k == 'hs':
         from proxy.http.websocket.frame import WebsocketFrame
         return ['ws accept %s %s' % (hx(WebsocketFrame.GUID), case['key'] or '-')]
+    if k == 'inst':
+        return ['ws inst %s %s' % (case['rnd'] or '-', ' '.join(case['ops']))]
+    if k == 'loop':
+        return ['ws loop ' + (case['raw'] or '-')]
     if k == 'wsloop':
         # each frame is parsed from the start of what the previous one left: model = fresh parse per frame
         return ['ws parse ' + hx(x) for x in _wsloop_frames(case)]
@@ -349,6 +444,29 @@ def oracle(case):
             if line != want:
                 return 'frame-sequence-in-one-segment-not-delivered-frame-by-frame'
         return None
+    if k == 'loop':
+        if 'frames' not in case:
+            return None
+        got = _loop_impl(case).split(' | ')
+        want = []
+        end = 'drained'
+        for fr in case['frames']:
+            if fr['op'] == 8:
+                end = 'closed'
+                break
+            d = payload(fr['data'])
+            want.append('fin=%d rsv=%d%d%d op=%d masked=%d plen=%d mask=%s data=%s' % (
+                fr['flags'][0], fr['flags'][1], fr['flags'][2], fr['flags'][3], fr['op'], fr['masked'], len(d),
+                (fr['mask'] if fr['masked'] else 'None'), hx(d)))
+        return None if got == want + [end] else 'frames-of-one-segment-not-delivered-as-sent(full-instance-state)'
+    if k == 'inst':
+        if 'echo' not in case:
+            return None
+        # echo: parse(frame ++ tail) then build() on the same object must give the frame's bytes back
+        got = _inst_impl(case).split(' | ')
+        if len(got) < len(case['ops']) - 1:
+            return None            # an EARLIER operation of the history raised: the echo pair never ran
+        return None if got[-1].startswith('built ' + case['echo'] + ' ') else 'parse-then-build-does-not-reproduce-the-frame'
     if k == 'mask':
         d, m = bytes.fromhex(case['data']), bytes.fromhex(case['mask'])
         if len(m) != 4:
@@ -424,6 +542,17 @@ def corpus():
     cs.append({'kind': 'upfr', 'key': K, 'with_req': 1, 'frames': [fr(0xa, 0, None, '00' * 13, (0, 0, 0, 0)), fr(2, 1, '0d0a0d0a', '0d0a')]})
     cs.append({'kind': 'upfr', 'key': K, 'with_req': 2, 'frames': [fr(0xd, 0, None, '0d0a' * 5, (0, 0, 0, 0)), fr(0xd, 0, None, '0d' * 13, (0, 0, 0, 0))]})
     cs.append({'kind': 'upfr', 'key': K, 'with_req': 0, 'frames': [fr(0xd, 0, None, '30313233343536373839', (0, 0, 0, 0))]})
+    cs.append({'kind': 'inst', 'rnd': '09090909', 'ops': ['P=818101020304600d', 'S=1010,9,1,None,6162', 'B', 'R', 'P=810161', 'B']})
+    cs.append({'kind': 'inst', 'rnd': '', 'ops': ['P=81810102030460', 'P=810161', 'B']})          # stale mask without reset
+    cs.append({'kind': 'inst', 'rnd': '', 'ops': ['S=0000,1,0,None,None', 'B', 'S=0000,1,0,None,6162', 'B']})
+    cs.append({'kind': 'inst', 'rnd': '01', 'ops': ['S=1000,2,1,None,616263', 'B']})
+    cs.append({'kind': 'inst', 'rnd': '', 'ops': ['P=8103616263ff', 'B'], 'echo': '8103616263'})
+    cs.append({'kind': 'inst', 'rnd': '', 'ops': ['P=817e0003616263ff', 'B']})                     # non-canonical length form
+    cs.append({'kind': 'inst', 'rnd': '', 'ops': ['P=8105616263', 'B']})                            # truncated, then build
+    cs.append({'kind': 'loop', 'raw': '81810102030460810161880000'})
+    cs.append({'kind': 'loop', 'raw': '8101'})
+    cs.append({'kind': 'loop', 'raw': '81'})
+    cs.append({'kind': 'loop', 'raw': ''})
     cs.append({'kind': 'mask', 'data': '0102030405', 'mask': 'ffeeddcc'})
     cs.append({'kind': 'mask', 'data': '01', 'mask': 'ff'})
     cs.append({'kind': 'mask', 'data': '', 'mask': ''})
@@ -485,6 +614,58 @@ def generate(rng, tier):
                            'mask': bytes(rng.randrange(256) for _ in range(4)).hex() if masked else None,
                            'data': {'n': n, 'a': rng.randrange(256), 'b': rng.randrange(256)}})
         yield {'kind': 'wsloop', 'frames': frames}
+    # reused-instance histories and the web loop on whole segments
+    def rframe(ops=(0, 1, 2, 9, 10, 3, 15, 8)):
+        masked = rng.randrange(2)
+        n = rng.choice([0, 1, 2, 5, 125, 126, 127, 200])
+        return {'flags': [rng.randrange(2) for _ in range(4)], 'op': rng.choice(ops), 'masked': masked,
+                'mask': bytes(rng.randrange(256) for _ in range(4)).hex() if masked else None,
+                'data': {'n': n, 'a': rng.randrange(256), 'b': rng.randrange(256)}}
+
+    def enc(fr):
+        return rfc_encode(fr['flags'], fr['op'], fr['masked'], bytes.fromhex(fr['mask'] or ''), payload(fr['data']))
+    for _ in range(150 if not big else 2500):
+        frames = [rframe() for _k in range(rng.choice([1, 2, 3, 4, 6]))]
+        raw = b''.join(enc(fr) for fr in frames)
+        r = rng.random()
+        if r < 0.6:
+            yield {'kind': 'loop', 'raw': raw.hex(), 'frames': frames}
+        elif r < 0.8:                      # truncated / garbage tail: no oracle, correspondence only
+            yield {'kind': 'loop', 'raw': raw[:rng.randrange(len(raw) + 1)].hex()}
+        else:
+            yield {'kind': 'loop', 'raw': (raw + bytes(rng.randrange(256) for _ in range(rng.randrange(1, 6)))).hex()}
+    for _ in range(200 if not big else 3000):
+        ops = []
+        echo = None
+        for _k in range(rng.choice([2, 3, 4, 6])):
+            r = rng.random()
+            if r < 0.4:
+                fr = rframe()
+                w = enc(fr)
+                cut = rng.random() < 0.15
+                tail = bytes(rng.randrange(256) for _ in range(rng.choice([0, 0, 1, 3])))
+                ops.append('P=' + hx((w[:rng.randrange(len(w) + 1)] if cut else w + tail)))
+                if not cut and rng.random() < 0.7:
+                    ops.append('B')
+                    echo = w.hex()
+                else:
+                    echo = None
+            elif r < 0.55:
+                ops.append('R')
+                echo = None
+            elif r < 0.75:
+                ops.append('B')
+                echo = None
+            else:
+                ops.append('S=%s,%d,%d,%s,%s' % (
+                    ''.join(str(rng.randrange(2)) for _ in range(4)), rng.choice([0, 1, 2, 8, 9, 15, 16, 300]),
+                    rng.randrange(2), rng.choice(['None', 'None', '01020304', '0102', '-']),
+                    rng.choice(['None', '-', '61', hx(bytes(rng.randrange(256) for _ in range(rng.choice([3, 126, 130]))))])))
+                echo = None
+        c = {'kind': 'inst', 'rnd': rng.choice(['', '0a0b0c0d', '0a0b']), 'ops': ops}
+        if echo is not None and ops[-1] == 'B':
+            c['echo'] = echo
+        yield c
     for _ in range(40 if not big else 400):
         key = base64.b64encode(bytes(rng.randrange(256) for _ in range(rng.choice([16, 16, 8, 20])))).hex()
         yield {'kind': 'hs', 'key': key, 'tls': rng.randrange(2), 'upg': rng.choice(['websocket', 'WEBSOCKET', 'Websocket'])}
@@ -529,6 +710,10 @@ def describe(case):
         return ['wsloop frames=%d' % len(case['frames'])]
     if case['kind'] == 'hs':
         return ['handshake tls=%d' % case['tls']]
+    if case['kind'] == 'inst':
+        return ['inst ops=%d' % len(case['ops']), 'inst echo=%d' % ('echo' in case)]
+    if case['kind'] == 'loop':
+        return ['loop valid-frames=%d' % ('frames' in case)]
     if case['kind'] == 'upfr':
         return ['upgrade+frames frames-with-request=%d' % case['with_req']]
     if case['kind'] == 'rt':
@@ -539,4 +724,4 @@ def describe(case):
 
 
 def nontrivial(case):
-    return in_quantifier(case) or case['kind'] in ('wsloop', 'hs', 'upfr')
+    return in_quantifier(case) or case['kind'] in ('wsloop', 'hs', 'upfr', 'inst', 'loop')
